@@ -6,6 +6,7 @@ def intrinsicDispatch (toks : List String) : Option String :=
   match toks with
   | "conc" :: _ => some "ok"     -- C20: concurrent scenario under the race detector vs sequential results
   | "dec" :: _ => some "ok"
+  | "colddec" :: _ => some "ok"  -- C18: a decoder as the first action of a fresh process: returns, no panic
   | "sm2fresh" :: _ => some "ok" -- C01: n signatures with n fresh random streams: every one verifies, no r twice      -- C18: a decoder on one (mutated) input: returns, within time and memory limits
   | _ => none
 
